@@ -211,21 +211,24 @@ USER_TEMPLATE = ("\n\n\n// {{ T.full_name }}\n"
 
 def shape_inputs(iid, shape):
     """The namespace shape of a model record as real DSDL.  shape: {"types": [{"ns": [..], "k": k}...], "user": index|0}.
-    Every type gets a body of its own; the `user` type has a field and an array of every other type."""
+    The `user` type is a union over every other type (as a field or as an array element); the other types alternate between
+    a delimited structure, a structure with a variable-length array and a one-field structure (the combinations for which
+    PyDSDL's lazily computed bit-length caches of a dependency are filled differently by the dependant and by the
+    dependency itself)."""
     types = shape["types"]
     files = {}
     for i, t in enumerate(types, 1):
         rel = "in/%s/T%d.1.0.dsdl" % (ns_dir(t["ns"]), t["k"])
         lines = ["# type %d of the shape" % i]
         if i == shape["user"]:
+            lines += ["@union", "uint8 z", "uint16 y"]
             for j, d in enumerate(types, 1):
                 if j != i:
                     ref = "%s.T%d.1.0" % (ns_dotted(d["ns"]), d["k"])
-                    lines += ["%s d%d" % (ref, j), "%s[<=2] e%d" % (ref, j)]
-            lines += ["uint8 tail", "@extent 64 * 8 * 8"]
+                    lines.append("%s[<=2] e%d" % (ref, j) if j % 3 == 2 else "%s d%d" % (ref, j))
+            lines.append("@sealed")
         else:
-            lines += ["int13 v", "void3", "float16[<=%d] w" % (i + 1), "uint%d[%d] x" % (8 * (1 + i % 2), 1 + i % 3)][: 2 + (i % 4)]
-            lines += ["bool b%d" % i, "@sealed" if i % 2 else "@extent 32 * 8"]
+            lines += [["int13 v%d" % i, "void3", "@extent 64"], ["float16[<=3] w%d" % i, "uint8 x", "@sealed"], ["uint8 x%d" % i, "@sealed"]][i % 3]
         files[rel] = "\n".join(lines) + "\n"
     files["tpl/Any.j2"] = USER_TEMPLATE
     return Inputs(iid, "shape:" + json.dumps(shape, separators=(",", ":")), files, shape=shape)
